@@ -42,6 +42,8 @@ type State struct {
 	allocK  int
 	ghost   map[string]string // ghost variables (call counters, facts, last results)
 	nonnil  map[string]bool   // refs already known non-nil on this path (syntactic cache)
+	bounds  map[string]string // per heap array: allocation counter when it was last written (refs stored in it are older)
+	baseBound string          // bound of arrays never written since entry / last havoc-all
 }
 
 func (s *State) clone() *State {
@@ -62,6 +64,11 @@ func (s *State) clone() *State {
 	for k, v := range s.nonnil {
 		n.nonnil[k] = v
 	}
+	n.bounds = make(map[string]string, len(s.bounds))
+	for k, v := range s.bounds {
+		n.bounds[k] = v
+	}
+	n.baseBound = s.baseBound
 	return n
 }
 
@@ -103,6 +110,18 @@ func (s *State) set(arr, term string) {
 	s.get(arr) // make sure it is declared/linked
 	s.heap[arr] = term
 	s.fc.written[arr] = true
+	s.bounds[arr] = s.alloc()
+}
+
+// boundOf: every reference stored in arr was allocated no later than this counter value.
+func (s *State) boundOf(arr string) string {
+	if b, ok := s.bounds[arr]; ok {
+		return b
+	}
+	if s.baseBound != "" {
+		return s.baseBound
+	}
+	return s.alloc()
 }
 
 // havocAll: every heap array gets an unconstrained new version (unknown callee).
@@ -117,6 +136,8 @@ func (s *State) havocAll() {
 	na := fc.q.freshConst("alloc", sInt)
 	fc.q.assert(implies(s.reach, fmt.Sprintf("(>= %s %s)", na, old.alloc())))
 	s.allocB, s.allocK = na, 0
+	s.bounds = map[string]string{}
+	s.baseBound = na
 	// non-escaping local objects are untouched by any callee
 	for _, lo := range fc.localObjs {
 		if !lo.live[s] && false {
@@ -144,6 +165,7 @@ func (s *State) havocArrs(arrs []string) {
 		old := s.get(a)
 		nv := fc.q.freshConst(a, fc.g.arrSort[a])
 		s.heap[a] = nv
+		s.bounds[a] = "" // resolved to the allocation counter after the call (see fixBounds)
 		for _, lo := range fc.localObjs {
 			var ls []Leaf
 			fc.g.ti.leaves(lo.typ, 0, "", &ls)
@@ -153,6 +175,15 @@ func (s *State) havocArrs(arrs []string) {
 					s.heap[a] = sto(s.heap[a], idx, sel(old, idx))
 				}
 			}
+		}
+	}
+}
+
+// fixBounds: arrays havocked by a call may hold references allocated by the callee.
+func (s *State) fixBounds() {
+	for k, v := range s.bounds {
+		if v == "" {
+			s.bounds[k] = s.alloc()
 		}
 	}
 }
@@ -178,7 +209,7 @@ func mergeStates(fc *FnCtx, name string, preds []parentLink) *State {
 		edges = append(edges, p.edge)
 	}
 	q.assert(eq(reach, or(edges...)))
-	n := &State{fc: fc, reach: reach, locals: map[*ssa.Alloc]string{}, heap: map[string]string{}, ghost: map[string]string{}, nonnil: map[string]bool{}}
+	n := &State{fc: fc, reach: reach, locals: map[*ssa.Alloc]string{}, heap: map[string]string{}, ghost: map[string]string{}, nonnil: map[string]bool{}, bounds: map[string]string{}}
 	// epoch
 	same := true
 	for _, p := range preds[1:] {
@@ -267,6 +298,38 @@ func mergeStates(fc *FnCtx, name string, preds []parentLink) *State {
 			terms = append(terms, p.st.alloc())
 		}
 		n.allocB, n.allocK = mergeTerm(fc, "alloc@"+name, sInt, preds, terms), 0
+	}
+	// bounds: keep when all predecessors agree, else the merged allocation counter
+	sameBase := true
+	for _, p := range preds[1:] {
+		if p.st.baseBound != preds[0].st.baseBound {
+			sameBase = false
+		}
+	}
+	if sameBase {
+		n.baseBound = preds[0].st.baseBound
+	} else {
+		n.baseBound = n.alloc()
+	}
+	bkeys := map[string]bool{}
+	for _, p := range preds {
+		for k := range p.st.bounds {
+			bkeys[k] = true
+		}
+	}
+	for k := range bkeys {
+		b0 := preds[0].st.boundOf(k)
+		same := true
+		for _, p := range preds[1:] {
+			if p.st.boundOf(k) != b0 {
+				same = false
+			}
+		}
+		if same {
+			n.bounds[k] = b0
+		} else {
+			n.bounds[k] = n.alloc()
+		}
 	}
 	// nonnil cache: intersection
 	for k := range preds[0].st.nonnil {
